@@ -284,3 +284,154 @@ def merge_tie(ctx, npays, ncases):
     ctx.notes["merge_cases"] = len(cases)
     ctx.notes["merge_model_disagreements"] = ndis
     return len(cases)
+
+
+# ---------------------------------------------------------------------------------------------------------
+# T3 tie: per-rank trace co-simulation of the extracted programs coq/C01/NotifyProgs.notify_prog
+# (allgather, binary, nary, pex, pcx, rsx; without payload and with fixed-size items below/above the eager
+# threshold) against the traces of the real code on the simulated MPI.
+# ---------------------------------------------------------------------------------------------------------
+TAG_RECURSIVE = 228          # only used to decide how to PRINT a message (ints vs bytes); the tags themselves are
+                             # compared against the generated constants inside the extracted model
+COLL_KIND = {"MPI_Allgather": 1, "MPI_Allgatherv": 2, "MPI_Alltoall": 3, "MPI_Reduce_scatter_block": 4}
+COSIM_TYPES = [0, 1, 2, 3, 4, 5]
+
+
+def _npay(sz):
+    return ((sz - 1) if sz > 4 else 0) // 4 + 1
+
+
+def _mask_records(b, npay, sz):
+    """zero the padding bytes behind every payload item inside an int record array (n-ary records with payload)"""
+    if npay == 0 or sz % 4 == 0:
+        return b
+    b = bytearray(b)
+    n = len(b) // 4
+    ints = [int.from_bytes(b[4 * k:4 * k + 4], "little", signed=True) for k in range(n)]
+    i = 0
+    multi = 1 + npay
+    while i + 1 < n:
+        cnt = ints[i + 1]
+        if cnt < 0 or i + 2 + multi * cnt > n:
+            break
+        for s in range(cnt):
+            base = 4 * (i + 2 + multi * s + 1)
+            for k in range(sz, 4 * npay):
+                b[base + k] = 0
+        i += 2 + multi * cnt
+    return bytes(b)
+
+
+def cosim_line(case, run, q, trace_by_rank, accum_targets):
+    c = case
+    P = c.P
+    R = c.patterns[0][q]
+    haspay = 1 if c.paymode == 1 else 0
+    sz = c.paysize if haspay else 0
+    eager = 1 if (haspay and sz <= c.threshold) else 0
+    npay = _npay(sz) if (haspay and eager and c.type == 2) else 0
+    evs = []
+    if c.type == 5:
+        # RMA census of rsx: contribution = the targets of this rank's MPI_Accumulate calls, reply = the number of
+        # accumulates that hit this rank's window
+        vec = [1 if t in accum_targets[q] else 0 for t in range(P)]
+        hits = sum(1 for r in range(P) for t in accum_targets[r] if t == q)
+        evs.append("C 5 -1 %s %x" % (",".join("%x" % v for v in vec) if vec else "-", hits))
+    for e in mpitrace.canonical_windows(mpitrace.merge_probe_recv(trace_by_rank[q])):
+        if e[0] == "S":
+            unit = 4 if e[2] >= TAG_RECURSIVE else 1
+            data = _mask_records(e[3], npay, sz) if e[2] >= TAG_RECURSIVE + 32 else e[3]
+            evs.append("S %x %x %s" % (e[1], e[2], mpitrace.hexints(data, unit, signed=(unit == 4))))
+        elif e[0] == "R":
+            unit = 4 if e[2] >= TAG_RECURSIVE else 1
+            data = e[4] or b""
+            data = _mask_records(data, npay, sz) if e[2] >= TAG_RECURSIVE + 32 else data
+            evs.append("R %s %x %x %s" % (("-1" if e[1] < 0 else "%x" % e[1]), e[2], e[3] if e[3] is not None else 0, mpitrace.hexints(data, unit, signed=(unit == 4))))
+        elif e[0] == "C":
+            kind = COLL_KIND.get(e[1])
+            if kind is None:
+                evs.append("C 63 -1 - -")      # a collective the model does not know: makes the co-simulation fail visibly
+            else:
+                evs.append("C %x -1 %s %s" % (kind, mpitrace.hexints(e[3], 4, signed=True), mpitrace.hexints(e[4], 4, signed=True)))
+    # final output of the call on this rank
+    out = None
+    for o in run.outs:
+        left, pay, rest = o.split(" | ")
+        w = left.split()
+        if int(w[0]) == 0 and int(w[1]) == q:
+            ns = int(w[2])
+            senders = [int(x) for x in w[3:3 + ns]]
+            pb = b"" if pay.strip() == "-" else bytes.fromhex(pay.strip())
+            out = [ns] + senders + list(pb)
+    if out is None:
+        return None
+    evs.append("O " + ",".join(_hx(v) for v in out))
+    items = "-"
+    if haspay and R:
+        items = "/".join(",".join("%x" % pay_byte(0, q, r, k) for k in range(sz)) for r in R)
+    rs = ",".join("%x" % r for r in R) if R else "-"
+    return "prog %x %x %x %x %x %x %d %d %x %d %s %s | %s" % (c.type, P, q, c.ntop, c.nint, c.nbot, 1 if c.sorted else 0, haspay, sz, eager, rs, items, " ; ".join(evs))
+
+
+def gen_cosim_cases(ctx, paymodes, n):
+    rng = ctx.rng
+    cases = []
+    sizes = [1, 2, 3, 4, 5, 7, 8, 9, 12, 13, 16]
+    for i in range(n):
+        typ = COSIM_TYPES[i % len(COSIM_TYPES)]
+        P = rng.choice([1, 2, 3, 4, 5, 6, 7, 8, 9, 11, 12, 13, 16, 17])
+        pm = rng.choice(paymodes)
+        sz = rng.choice(sizes) if pm else 0
+        thr = rng.choice([0, sz - 1, sz, 1024, 1024]) if pm else 1024
+        c = make_case(rng, P, typ, paymode=pm, paysize=sz, threshold=max(thr, 0))
+        if typ == 2:
+            c.ntop, c.nint, c.nbot = rng.randrange(2, 6), rng.randrange(2, 5), rng.randrange(2, 6)
+        cases.append(c)
+    return cases
+
+
+def cosim_tie(ctx, paymodes, ncases):
+    """co-simulate every rank of every case; returns number of rank traces walked"""
+    cases = gen_cosim_cases(ctx, paymodes, ncases)
+    rc, runs, err = run_cases(ctx, cases, trace=True)
+    if rc != 0 or len(runs) < len(cases):
+        ctx.tie_broken("cosim harness run", "status %s, %d of %d runs: %s" % (rc, len(runs), len(cases), err[-600:]))
+    lines, index = [], []
+    for c, r in zip(cases, runs):
+        ctx.count_case("cosim " + c.text(), nontrivial=c.P > 1 and any(len(x) for x in c.patterns[0]))
+        probs = judge(c, r)
+        for kind, text, detail in probs:
+            rep = dict(case=c.to_json(), kind=kind)
+            rep.update(detail)
+            ctx.violation("%s:%s" % (kind, c.key()), "%s [%s]" % (text, c.header()), rep)
+        if r.rc != 0 or probs:
+            continue
+        per = mpitrace.rank_events(r.trace, c.P)
+        acc = [[] for _ in range(c.P)]
+        for e in r.trace:
+            if e.get("f") == "MPI_Accumulate" and 0 <= e.get("r", -1) < c.P:
+                acc[e["r"]].append(e.get("target"))
+        for q in range(c.P):
+            l = cosim_line(c, r, q, per, acc)
+            if l is not None:
+                lines.append(l)
+                index.append((c, q))
+    nmis = 0
+    try:
+        mexe = ctx.model("c01")
+        rc2, mout, err2 = ctx.run_lines([mexe], "\n".join(lines) + "\n", timeout=900)
+        mout = [l for l in mout if l != ""]
+        if rc2 != 0 or len(mout) != len(lines):
+            ctx.tie_broken("c01 model run (co-simulation)", "exit %s, %d of %d lines: %s" % (rc2, len(mout), len(lines), err2[-500:]))
+        for (c, q), l, src in zip(index, mout, lines):
+            if not l.startswith("OK"):
+                nmis += 1
+                if nmis <= 3:
+                    ctx.tie_broken("co-simulation %s rank %d of [%s]" % (TYPES[c.type], q, c.header()), (l[:400] + " || " + src[:600]))
+    except vlib.BuildError as e:
+        ctx.tie_broken("c01 model build", str(e)[-1500:])
+    ctx.cov["disagreements_checked"] += len(lines)
+    ctx.notes["cosimulated_rank_traces"] = len(lines)
+    ctx.notes["cosim_mismatches"] = nmis
+    ctx.notes["cosim_types"] = [TYPES[t] for t in COSIM_TYPES]
+    return len(lines)
